@@ -138,13 +138,26 @@ def _relevant_files(pid):
     return files
 
 
-def refactor_corpus(pid, repo, R, workers=3):
-    # relevance at crate level: rules also read sibling code of the anchored files (the reader as oracle of the writer, shared tree types)
-    rel = set(f.split("/")[0] for f in _relevant_files(pid))
-    todo = []
+def refactor_corpus(pid, repo, R, workers=6):
+    # relevance at crate level: rules also read sibling code of the anchored files (the reader as oracle of the writer, shared tree types);
+    # patches that touch an anchored *file* come first.  The corpus has grown to several hundred patches: one thorough run takes a
+    # deterministic sample (VERIF_REFACTOR_CAP, default 36; rotated by VERIF_SEED) so that the tier stays within tens of minutes; the
+    # whole corpus is swept by tools/refactor_check.py.
+    import hashlib
+    relf = _relevant_files(pid)
+    rel = set(f.split("/")[0] for f in relf)
+    cand = []
     for pf in sorted(glob.glob(os.path.join(VERIF, "refactors", "*", "patch.diff"))):
-        if set(f.split("/")[0] for f in _patch_files(pf)) & rel:
-            todo.append({"_name": os.path.basename(os.path.dirname(pf)), "patch": pf})
+        files = _patch_files(pf)
+        if set(f.split("/")[0] for f in files) & rel:
+            name = os.path.basename(os.path.dirname(pf))
+            seed = os.environ.get("VERIF_SEED", "0")
+            rank = hashlib.sha256(("%s/%s" % (seed, name)).encode()).hexdigest()
+            cand.append((0 if set(files) & relf else 1, rank, {"_name": name, "patch": pf}))
+    cand.sort(key=lambda x: (x[0], x[1]))
+    cap = int(os.environ.get("VERIF_REFACTOR_CAP", "36") or 36)
+    n_relevant = len(cand)
+    todo = [c[2] for c in cand[:cap]]
     if not todo:
         R.extra["refactor_corpus"] = {"patches": 0}
         return "refactor corpus: no patch touches the anchored files"
@@ -155,8 +168,8 @@ def refactor_corpus(pid, repo, R, workers=3):
     silent = [r["name"] for r in res if r["status"] == "missed"]          # `missed` = the check stayed silent = what a refactor must give
     alarms = [r for r in res if r["status"].startswith("detected")]
     other = [r for r in res if r["status"] not in ("missed",) and not r["status"].startswith("detected")]
-    R.extra["refactor_corpus"] = {"patches": len(todo), "silent": len(silent), "false_alarms": alarms, "skipped_or_invalid": other}
-    return "refactor corpus: %d relevant patches, %d silent, %d false alarms" % (len(todo), len(silent), len(alarms))
+    R.extra["refactor_corpus"] = {"relevant": n_relevant, "patches": len(todo), "silent": len(silent), "false_alarms": alarms, "skipped_or_invalid": other}
+    return "refactor corpus: %d of %d relevant patches sampled, %d silent, %d false alarms" % (len(todo), n_relevant, len(silent), len(alarms))
 
 
 def _apply(m, repo):
@@ -220,7 +233,7 @@ def _one(pid, m, repo):
         shutil.rmtree(tmp, ignore_errors=True)
 
 
-def self_test(pid, repo, R, workers=3):
+def self_test(pid, repo, R, workers=6):
     ms = _load_mutants(pid) + _load_seeds(pid)
     if not ms:
         R.extra["self_test"] = {"mutants": 0}
